@@ -56,6 +56,7 @@ def visibility(ctx):
     if b is None:
         return
     render.ancestor_walk(ctx, rule='V1')
+    walk_tests_every_member(ctx, rule='V1')
     ret = res(b).ret()
     consts = sorted(q.const_val(x) for x in alts(ret) if x[0] == 'const')
     if not (b.cfg.loops and consts == [0, 1] and len(alts(ret)) == 2):
@@ -63,8 +64,10 @@ def visibility(ctx):
                  b.span, key=b.name + '|V1|form')
         return
     n = 0
+    # local 0, or the return slot of a helper the walk was moved into (inlined, its result handed straight to local 0)
+    slots = {0} | {i for i, l_ in enumerate(b.locals) if l_.get('ret_dest') == 0}
     for (l, pj, t, bb, sp) in q.defs_in(b, b.cfg.reach):
-        if l != 0 or pj or t[0] != 'const':
+        if l not in slots or pj or t[0] != 'const':
             continue
         n += 1
         gs = [(c, v, q.bool_outcome(b, a, v)) for c, v, a in q.guards(b, bb)]
@@ -96,6 +99,241 @@ def visibility(ctx):
             ctx.inst('V1', 'is_visible -> true', passed and none, '`true` is returned only when every visited member passed its VISIBLE test (%s) and the chain has ended (%s)'
                      % (passed, none), sp, key=b.name + '|V1|true@%d' % n)
     ctx.floor('constant results of is_visible', n, 2)
+
+
+def walk_tests_every_member(ctx, rule='V1'):
+    """Loop form of Layer::is_visible, whatever its shape (helpers inlined): a must-dataflow over the CFG decides that every value the
+    chain variable takes - the layer itself, then each parent looked up for it - has passed its VISIBLE test before it is replaced by
+    the next one and before `true` can be returned.
+      state   = locals whose CURRENT value passed the test (+ pairs of locals known to hold the same value: copies and int casts)
+      gen     = true edge of a switch on contains(layers[x].flags, VISIBLE): x and everything equal to x
+      checks  = at each assignment to the chain variable c (the multiply-assigned local that feeds `parents[..]`): c is in the state
+                (the value about to be dropped was tested; vacuous for the first assignment); at each return that can be `true`: same.
+    Seed C19-o tested each parent and, after the loop, the last one again - never the layer itself."""
+    fx = ctx.fx
+    b = ctx.anchor(LY + 'Layer::is_visible')
+    if b is None or not b.cfg.loops:
+        return
+    r = res(b)
+    blocks = b.blocks
+    reach = [i for i in sorted(b.cfg.reach) if not blocks[i]['cleanup']]
+
+    def whole_defs(l):
+        return [d for d in r.defs.get(l, []) if not d[0]]
+
+    def op_local(op):
+        return op['p']['l'] if op.get('k') in ('copy', 'move') and not op['p']['p'] else None
+
+    def copy_src(rv):
+        """local the rvalue copies (plain use or integer cast), else None"""
+        if rv['k'] == 'use':
+            return op_local(rv['op'])
+        if rv['k'] == 'cast' and 'IntToInt' in rv.get('ck', 'IntToInt'):
+            return op_local(rv['op'])
+        return None
+
+    def single_def(l):
+        ds = r.defs.get(l, [])
+        return ds[0] if len(ds) == 1 and not ds[0][0] else None
+
+    def index_subject(call_term):
+        """for a call `<X as Index>::index(recv, i)`: (receiver mentions `parents`?, local of i)"""
+        fn = call_term.get('fn') or {}
+        name = fn.get('res') or fn.get('orig') or ''
+        if not (name.endswith('::index') and len(call_term['args']) == 2):
+            return None
+        rl = op_local(call_term['args'][0])
+        par = False
+        if rl is not None:
+            d = single_def(rl)
+            if d is not None and d[1] == 'rv' and d[2]['k'] == 'ref':
+                par = any(e.get('k') == 'field' and e.get('n') == 'parents' for e in d[2]['p']['p'])
+        return par, op_local(call_term['args'][1])
+
+    def test_subject(l, depth=6):
+        """local l holds contains(layers[x].flags, VISIBLE): -> local x (else None)"""
+        d = single_def(l)
+        if d is None or depth == 0:
+            return None
+        if d[1] == 'rv':
+            src = copy_src(d[2])
+            return test_subject(src, depth - 1) if src is not None else None
+        return call_test_subject(d[2], d[3])
+
+    def call_test_subject(t, bb):
+        name = ((t.get('fn') or {}).get('res') or (t.get('fn') or {}).get('orig') or '')
+        if not name.endswith('::contains') or not t['args']:
+            return None
+        term = r.call_term(t, (), bb)
+        if not visible_test(term):
+            return None
+        fl = op_local(t['args'][0])
+        dfl = single_def(fl) if fl is not None else None
+        if dfl is None or dfl[1] != 'rv' or dfl[2]['k'] != 'ref' or not any(e.get('n') == 'flags' for e in dfl[2]['p']['p']):
+            return None
+        dbase = single_def(dfl[2]['p']['l'])
+        if dbase is None or dbase[1] != 'call':
+            return None
+        ix = index_subject(dbase[2])
+        return ix[1] if ix is not None and not ix[0] else None
+
+    # chain variables: multiply-assigned locals from which (through copies) the index of a `parents[..]` lookup is taken
+    feeds = set()
+    for i in reach:
+        t = blocks[i]['term']
+        if t and t['k'] == 'call':
+            ix = index_subject(t)
+            if ix is not None and ix[0] and ix[1] is not None:
+                feeds.add(ix[1])
+    todo = list(feeds)
+    while todo:
+        l = todo.pop()
+        for d in whole_defs(l):
+            if d[1] == 'rv':
+                src = copy_src(d[2])
+                if src is not None and src not in feeds:
+                    feeds.add(src)
+                    todo.append(src)
+    chain = sorted(l for l in feeds if len(whole_defs(l)) >= 2)
+    if not chain:
+        ctx.inst(rule, 'Layer::is_visible#members', True, 'no multiply-assigned chain variable feeds a parents[..] lookup: the walk is not in '
+                 'cursor form, only the unbounded-walk rule applies', b.span, key=b.name + '|%s|members' % rule, nontrivial=False)
+        return
+
+    # where the result is produced: local 0, or the return slot of an inlined helper whose result is handed straight to local 0
+    rslots = {0} | {i for i, l_ in enumerate(b.locals) if l_.get('ret_dest') == 0}
+    ALL = None      # top
+
+    def gen(state, x):
+        tested, eq = state[0], state[1]
+        tested = set(tested)
+        work = [x]
+        while work:
+            y = work.pop()
+            if y in tested:
+                continue
+            tested.add(y)
+            for pr in eq:
+                if y in pr:
+                    work += [z for z in pr if z != y]
+        return (frozenset(tested), eq, state[2])
+
+    def assign(state, l, rv, test_of=None):
+        tested, eq, tres = state
+        src = copy_src(rv) if rv is not None else None
+        # tres: locals that hold the outcome of test(x) for the CURRENT value of x
+        tres = frozenset((d, x) for d, x in tres if d != l and x != l)
+        if test_of is not None and test_of != l:
+            tres = tres | {(l, test_of)}
+        elif src is not None:
+            tres = tres | {(l, x) for d, x in tres if d == src}
+        eq = frozenset(pr for pr in eq if l not in pr)
+        tested = set(tested)
+        was = src is not None and src in tested
+        tested.discard(l)
+        if src is not None and src != l:
+            if was:
+                tested.add(l)
+            eq = eq | {frozenset((l, src))}
+        return (frozenset(tested), eq, tres)
+
+    nloc = len(b.locals)
+    entry = (frozenset(range(nloc)), frozenset(), frozenset())      # nothing holds a value yet: vacuously tested
+
+    def join(a, c):
+        if a is ALL:
+            return c
+        if c is ALL:
+            return a
+        return (a[0] & c[0], a[1] & c[1], a[2] & c[2])
+
+    IN = {i: ALL for i in reach}
+    IN[0] = entry
+    findings = []
+
+    def flow(i, state, report):
+        """-> {succ: state}"""
+        blk = blocks[i]
+        for st in blk['stmts']:
+            if st['k'] != 'assign' or st['p']['p']:
+                continue
+            l = st['p']['l']
+            if report and l in chain and l not in state[0]:
+                findings.append(('the chain variable %s is overwritten while the value it held has not passed its VISIBLE test'
+                                 % (b.local_name(l) or '_%d' % l), st.get('span')))
+            if l in rslots and report and not (copy_src(st['rv']) in rslots):     # (a hand-off between result slots produces nothing)
+                rv = st['rv']
+                cv = rv['op'].get('v') if rv['k'] == 'use' and rv['op'].get('k') == 'const' else None
+                st2 = state
+                src = copy_src(rv)
+                for d_, x_ in state[2]:
+                    if d_ == src:
+                        st2 = gen(st2, x_)          # `return test(x)`: true only if x passes
+                if cv != 0:
+                    for c in chain:
+                        if c not in st2[0]:
+                            findings.append(('a result that can be `true` is produced while the chain variable %s holds a value that has not passed '
+                                             'its VISIBLE test' % (b.local_name(c) or '_%d' % c), st.get('span')))
+            state = assign(state, l, st['rv'])
+        t = blk['term']
+        out = {}
+        if not t:
+            return out
+        if t['k'] == 'call':
+            if not t['dest']['p']:
+                d = t['dest']['l']
+                if d in rslots and report:
+                    x = call_test_subject(t, i)
+                    st2 = gen(state, x) if x is not None else state       # `return test(x)`: true only if x passes
+                    for c in chain:
+                        if c not in st2[0]:
+                            findings.append(('a call result is returned while the chain variable %s holds an untested value' % (b.local_name(c) or '_%d' % c), t.get('span')))
+                state = assign(state, d, None, test_of=call_test_subject(t, i))
+            if isinstance(t.get('target'), int):
+                out[t['target']] = state
+            return out
+        if t['k'] == 'switch':
+            dl = op_local(t['discr'])
+            subj = None
+            for d_, x_ in state[2]:
+                if d_ == dl:
+                    subj = x_
+            for v, s_ in t['targets']:
+                out[s_] = join(out.get(s_, ALL), state)
+            if isinstance(t.get('otherwise'), int):
+                st_t = state
+                if subj is not None and t.get('ty') == 'bool' and [v for v, _ in t['targets']] == [0]:
+                    st_t = gen(state, subj)
+                out[t['otherwise']] = join(out.get(t['otherwise'], ALL), st_t)
+            return out
+        for s_ in b.cfg.succ[i]:
+            if not blocks[s_]['cleanup']:
+                out[s_] = state
+        return out
+
+    changed = True
+    rounds = 0
+    while changed and rounds < 200:
+        changed = False
+        rounds += 1
+        for i in reach:
+            if IN[i] is ALL:
+                continue
+            for s_, st in flow(i, IN[i], False).items():
+                if s_ not in IN:
+                    continue
+                nw = join(IN[s_], st)
+                if nw != IN[s_]:
+                    IN[s_] = nw
+                    changed = True
+    for i in reach:
+        if IN[i] is not ALL:
+            flow(i, IN[i], True)
+    seen = set()
+    uniq = [f for f in findings if not (f in seen or seen.add(f))]
+    ctx.inst(rule, 'Layer::is_visible#members', not uniq, 'cursor walk over chain variable(s) %s: %s' % (
+        [b.local_name(c) or '_%d' % c for c in chain], 'every value it takes passes its VISIBLE test before it is replaced and before `true` is returned'
+        if not uniq else '; '.join(m for m, _ in uniq)), uniq[0][1] if uniq else b.span, key=b.name + '|%s|members' % rule)
 
 
 def parent_search(ctx):
@@ -284,6 +522,8 @@ def run(ctx):
     parent_search(ctx)
     accessor(ctx)
     level_source(ctx)
+    # what a visible layer shows is the cel stored for it: a later cel chunk of a lower layer must not drop it (seed C09-p)
+    render.cel_rows_grow_only(ctx, rule='V2')
     layer_cap(ctx)
     import common as _common
     _common.rejection_inventory(ctx, 'V8')          # no new refusal of layer forests the format allows (seed C09-n: level drops of two)
